@@ -205,6 +205,7 @@ class SequenceBasedRoutingProblem(RoutingProblem):
         Get the unique id/index of the binary variable given the "tuple" indexing
         Return of None means the tuple corresponds to a fixed variable
         """
+        self.enumerate_variables()
         index = self.var_mapping_inverse[vehicle_index, sequence_index, node_index]
         if index < 0:
             return None
@@ -213,6 +214,7 @@ class SequenceBasedRoutingProblem(RoutingProblem):
 
     def get_var_tuple_index(self, var_index):
         """Inverse of get_var_index"""
+        self.enumerate_variables()
         try:
             return self.var_mapping[var_index]
         except IndexError:
